@@ -144,6 +144,16 @@ func (V *Verifier) frameCheck(fn *ssa.Function) []frameFinding {
 				n++
 				name := fmt.Sprintf("mapupdate@%d", n)
 				ok := star || V.isFreshRoot(rootOf(in.Map), map[ssa.Value]bool{})
+				if ld, isLoad := in.Map.(*ssa.UnOp); !ok && isLoad {
+					for _, k := range e.addrKeys(ld.X) {
+						if allowed[k] {
+							ok = true
+						}
+						if _, has := located[k]; has {
+							ok = true
+						}
+					}
+				}
 				out = append(out, frameFinding{name, ok, "map update of a map not created by this activation", in})
 			case *ssa.Send, *ssa.Go:
 				n++
